@@ -249,13 +249,13 @@ func vhRoundCheckLoad(s *RoundStore, m *vhRoundModel, h uint64, r uint32) {
 	vhRoundCheckProofs(pc, pcM, "precommits")
 }
 
-// VH_C16_Round: up to two symbolic mutations, then every RoundStore method with symbolic
+// VH_C16_Round: up to two (thorough: three) symbolic mutations, then every RoundStore method with symbolic
 // arguments; after every mutation the touched round is loaded and compared with the model.
 func VH_C16_Round() {
 	verifrt.MapOrderFuncs("LoadRoundState")
 	s := NewRoundStore()
 	m := &vhRoundModel{}
-	n := verifrt.Choose("prefix-ops", 3)
+	n := verifrt.Choose("prefix-ops", vhMaxPrefix()+1)
 	for i := 0; i < n; i++ {
 		vhRoundSave(s, m)
 	}
